@@ -65,6 +65,16 @@ def cases(tier, seed):
                                                   outputs=outputs, numbering=numbering, inp=inp, vk=vk))
                                     if c:
                                         yield c
+    # two mixing / n-ary sums of the same shape side by side (they fold into one layer and one mixing-weight node)
+    twin = ("P", [("M", [[0, 1], [1, 0]]), ("M", [[2, 3], [3, 2]])])
+    for prod, style in [("had", "cpt"), ("had", "cp"), ("kro", "cpt")]:
+        for kin, ksum in [(2, 2), (3, 3), (2, 1)]:
+            for nary in ["mixing", "dense", "mixing-softmax"]:
+                for numbering in ["id", "h8"]:
+                    c = emit(dict(tree=twin, prod=prod, style=style, kin=kin, ksum=ksum, kout=1, nary=nary, outputs="single",
+                                  numbering=numbering, inp="cat-logits", vk="generic"))
+                    if c:
+                        yield c
     # sweeps on representative trees: every input kind, permutations, zeros, kout>1, sum weights
     reps = A.REPRESENTATIVE_TREES + [("P", [0, 1]), 0]
     for tree in reps:
@@ -98,6 +108,14 @@ def cases(tier, seed):
                               outputs="single", numbering="gap", inp="cat-softmax", vk="monotone", sumw=sumw))
                 if c:
                     yield c
+        # sibling sum layers with different weight parameterisations (softmax(tensor) / plain tensor alternate)
+        for sumw in ["alt", "alt2"]:
+            for prod, style in [("had", "cpt"), ("kro", "cpt"), ("had", "cp"), ("had", "sumsum")]:
+                for k in [2, 3]:
+                    c = emit(dict(tree=tree, prod=prod, style=style, kin=k, ksum=k, kout=1, nary="dense", outputs="single",
+                                  numbering="id", inp="cat-logits", vk="monotone", sumw=sumw))
+                    if c:
+                        yield c
         # complex parameters (complex-lse-sum only)
         for inp in ["emb", "poly2"]:
             c = emit(dict(tree=tree, prod="had", style="cpt", kin=2, ksum=2, kout=1, nary="dense", outputs="single",
